@@ -251,9 +251,27 @@ class Source:
             ctx.assume(blen(a) == k)
             ctx.assume(blen(b) == blen(s.t) - k)
             return [Raw(a)], [Raw(b)]
+        if isinstance(s, Enc) and s.codec[0] in ("be", "le") and len(s.args) == 1:
+            # a cut inside a fixed-width integer (a truncated stream handed on by a plain read): its bytes as an opaque
+            # string of that width - the link to the value is forgotten (havoc), which only weakens what can be proved
+            from spec import kafka
+            v = s.args[0]
+            if not isinstance(v, Sym) and v is not None:
+                return self._split_seg(Lit(kafka.concrete(s.codec, v)), k)
+            c = ctx.bytes_const(ctx.fresh("intbytes"))
+            ctx.assume(blen(c) == s.codec[1])
+            return self._split_seg(Raw(c), k)
         if isinstance(s, Enc):
             from spec import kafka
-            segs = list(normalise(kafka.unfold(ctx, s)))
+            try:
+                segs = list(normalise(kafka.unfold(ctx, s)))
+            except Undecided:
+                if s.codec[0] != "run":
+                    raise
+                # a cut inside a run of arbitrarily many items: the run as an opaque string of its length (havoc)
+                c = ctx.bytes_const(ctx.fresh("runbytes"))
+                ctx.assume(blen(c) == zint(s.length()))
+                return self._split_seg(Raw(c), k)
             for x in segs:
                 self._facts(x)
             # re-split within the unfolded form
